@@ -66,31 +66,32 @@ variables n = 1, me = <<self, 0>>;
 w_call:
   while (n <= OpsPerWriter) {
     me := <<self, n>>;
-    \* maybeThrottleWrite: hot-key clamp rejects before anything is shared
-    either { result[me] := "hot"; goto w_next } or skip;
-w_thr:      \* sendToWriteCh: for atomic.LoadInt32(&db.blockWrites) == 1
-    if (blockWrites) {
+w_thr:      \* maybeThrottleWrite (hot-key clamp rejects before anything is shared), then
+            \* sendToWriteCh: for atomic.LoadInt32(&db.blockWrites) == 1
+    either { result[me] := "hot"; n := n + 1; goto w_call }
+    or {
+      if (blockWrites) {
 w_thr2:     \* isClosed / commitQueue.closed (both only ever go 0 -> 1)
-      if (dbClosed \/ closed) { result[me] := "blocked"; goto w_next } else { goto w_thr };
+        if (dbClosed \/ closed) { result[me] := "blocked"; n := n + 1; goto w_call } else { goto w_thr };
+      };
     };
-w_size:     \* count >= MaxBatchCount || size >= MaxBatchSize
-    either { result[me] := "toobig"; goto w_next } or skip;
-e_inf:      \* enqueueCommitRequest
-    inflight := inflight + 1;
+e_inf:      \* size check (count >= MaxBatchCount || size >= MaxBatchSize), then enqueueCommitRequest
+    either { result[me] := "toobig"; n := n + 1; goto w_call }
+    or     { inflight := inflight + 1 };
 e_chk1:
-    if (closed) { inflight := inflight - 1; result[me] := "blocked"; goto w_next };
+    if (closed) { inflight := inflight - 1; result[me] := "blocked"; n := n + 1; goto w_call };
 e_acq:      \* acquireSpace: select on spaces / closeCh
     either { await spaces > 0; spaces := spaces - 1 }
-    or     { await closeCh; inflight := inflight - 1; result[me] := "blocked"; goto w_next };
+    or     { await closeCh; inflight := inflight - 1; result[me] := "blocked"; n := n + 1; goto w_call };
 e_chk2:
-    if (closed) { spaces := spaces + 1; inflight := inflight - 1; result[me] := "blocked"; goto w_next };
+    if (closed) { spaces := spaces + 1; inflight := inflight - 1; result[me] := "blocked"; n := n + 1; goto w_call };
 e_push1:    \* Ring.Push: r.closed.Load()
-    if (ringClosed) { spaces := spaces + 1; inflight := inflight - 1; result[me] := "blocked"; goto w_next };
+    if (ringClosed) { spaces := spaces + 1; inflight := inflight - 1; result[me] := "blocked"; n := n + 1; goto w_call };
 e_push2:    \* CAS tail: the slot is reserved (a space token is held, so the ring is not full)
     ring := Append(ring, [r |-> me, pub |-> FALSE]);
     pushed := Append(pushed, me);
 e_push3:    \* slot.seq.Store: published
-    ring := [i \in DOMAIN ring |-> IF ring[i].r = me THEN [ring[i] EXCEPT !.pub = TRUE] ELSE ring[i]];
+    ring := [j \in DOMAIN ring |-> IF ring[j].r = me THEN [ring[j] EXCEPT !.pub = TRUE] ELSE ring[j]];
 e_qlen:
     queueLen := queueLen + 1;
 e_item:     \* releaseItem
@@ -100,7 +101,6 @@ e_ret:      \* deferred inflight--
 w_wait:     \* request.Wait: wg.Wait, then read Err
     await acks[me] > 0;
     result[me] := IF err[me] = "none" THEN "ok" ELSE err[me];
-w_next:
     n := n + 1;
   }
 }
@@ -109,7 +109,7 @@ fair process (worker = "worker")
 variables batch = <<>>, bi = 1, failAt = -1;
 {
 k_try:      \* acquireItem: tryAcquireItem
-  if (items > 0) { items := items - 1; goto k_pop1 };
+  if (items > 0) { items := items - 1; goto k_pop };
 k_closed:
   if (closed) {
     if ("DrainChecksQueueLenFirst" \in Deviations) {
@@ -121,36 +121,33 @@ k_di2:  if (queueLen # 0) { goto k_try } else { goto k_exit };
     }
   };
 k_sel:      \* select { case <-items; case <-closeCh }
-  either { await items > 0; items := items - 1; goto k_pop1 }
+  either { await items > 0; items := items - 1; goto k_pop }
   or     { await closeCh; goto k_try };
-k_pop1:     \* cq.pop: Ring.Pop spins until the head slot is published
+k_pop:      \* cq.pop: Ring.Pop spins until the head slot is published; queueLen--; releaseSpace
+            \* (one step: only the worker reads queueLen, and handing the space token back a
+            \*  moment earlier adds no behaviour)
   await Len(ring) > 0 /\ ring[1].pub;
   batch := Append(batch, ring[1].r);
   popped := Append(popped, ring[1].r);
   ring := Tail(ring);
-k_pop2:
   queueLen := queueLen - 1;
-k_pop3:     \* releaseSpace
   spaces := spaces + 1;
 k_more:     \* coalescing loop (the optional WriteBatchWait sleep is just a delay here)
-  if (Len(batch) < MaxBatch /\ items > 0) { items := items - 1; goto k_pop1 };
-k_vlog:     \* vlog.write(requests): on error every request of the batch fails, nothing is applied
-  either { await faults < MaxFaults; faults := faults + 1; failAt := 0; goto k_ack }
-  or     { bi := 1; failAt := -1 };
-k_app:      \* applyRequests: request by request; a failure at i fails requests i.. of the batch
-  while (bi <= Len(batch)) {
-    either { applied := Append(applied, batch[bi]); bi := bi + 1 }
-    or     { await faults < MaxFaults; faults := faults + 1; failAt := bi; goto k_ack };
-  };
-k_ack:      \* finishCommitRequests
+  if (Len(batch) < MaxBatch /\ items > 0) { items := items - 1; goto k_pop };
+k_proc:     \* vlog.write(requests), then applyRequests request by request.  failAt = 0: vlog.write
+            \* failed (nothing applied, every request fails); failAt = f > 0: writeToLSM failed at
+            \* request f (requests before f applied and succeed, f.. fail).  Nobody else sees these steps.
+  either { failAt := -1 }
+  or     { await faults < MaxFaults; faults := faults + 1; with (f \in 0..Len(batch)) { failAt := f } };
+  applied := applied \o (IF failAt = -1 THEN batch ELSE SubSeq(batch, 1, failAt - 1));
   bi := 1;
-k_ack1:
+k_ack:      \* finishCommitRequests: Err, wg.Done per request
   while (bi <= Len(batch)) {
     err[batch[bi]] := IF failAt = 0 \/ (failAt > 0 /\ bi >= failAt) THEN "ioerr" ELSE "none";
     acks[batch[bi]] := acks[batch[bi]] + 1;
     bi := bi + 1;
   };
-  batch := <<>>;
+  batch := <<>>; bi := 1; failAt := -1;
   goto k_try;
 k_exit:
   workerDone := TRUE;
@@ -165,19 +162,18 @@ c_ring:
   ringClosed := TRUE;
 c_ch:
   closeCh := TRUE;
-c_wait:     \* commitWG.Wait
+c_wait:     \* commitWG.Wait, then the rest of closeInternal ... isClosed = 1
   await workerDone;
-c_rest:     \* rest of closeInternal ... isClosed = 1
   dbClosed := TRUE;
   closerDone := TRUE;
 }
 
 fair process (toggler = "toggler")
 {
-t_loop:
+t_loop:     \* lsm.throttleWrites -> applyThrottle, at any time, any number of times up to MaxToggles
   while (toggles < MaxToggles) {
-    blockWrites := ~blockWrites;
-    toggles := toggles + 1;
+    either { blockWrites := ~blockWrites; toggles := toggles + 1 }
+    or     { goto t_final };
   };
 t_final:
   if (ReleaseThrottle) { blockWrites := FALSE };
@@ -248,118 +244,115 @@ Init == (* Global variables *)
 w_call(self) == /\ pc[self] = "w_call"
                 /\ IF n[self] <= OpsPerWriter
                       THEN /\ me' = [me EXCEPT ![self] = <<self, n[self]>>]
-                           /\ \/ /\ result' = [result EXCEPT ![me'[self]] = "hot"]
-                                 /\ pc' = [pc EXCEPT ![self] = "w_next"]
-                              \/ /\ TRUE
-                                 /\ pc' = [pc EXCEPT ![self] = "w_thr"]
-                                 /\ UNCHANGED result
+                           /\ pc' = [pc EXCEPT ![self] = "w_thr"]
                       ELSE /\ pc' = [pc EXCEPT ![self] = "Done"]
-                           /\ UNCHANGED << result, me >>
+                           /\ me' = me
                 /\ UNCHANGED << ring, spaces, items, queueLen, inflight, 
                                 closed, ringClosed, closeCh, dbClosed, 
-                                blockWrites, acks, err, pushed, popped, 
+                                blockWrites, acks, err, result, pushed, popped, 
                                 applied, workerDone, closerDone, faults, 
                                 toggles, reads, n, batch, bi, failAt >>
 
 w_thr(self) == /\ pc[self] = "w_thr"
-               /\ IF blockWrites
-                     THEN /\ pc' = [pc EXCEPT ![self] = "w_thr2"]
-                     ELSE /\ pc' = [pc EXCEPT ![self] = "w_size"]
+               /\ \/ /\ result' = [result EXCEPT ![me[self]] = "hot"]
+                     /\ n' = [n EXCEPT ![self] = n[self] + 1]
+                     /\ pc' = [pc EXCEPT ![self] = "w_call"]
+                  \/ /\ IF blockWrites
+                           THEN /\ pc' = [pc EXCEPT ![self] = "w_thr2"]
+                           ELSE /\ pc' = [pc EXCEPT ![self] = "e_inf"]
+                     /\ UNCHANGED <<result, n>>
                /\ UNCHANGED << ring, spaces, items, queueLen, inflight, closed, 
                                ringClosed, closeCh, dbClosed, blockWrites, 
-                               acks, err, result, pushed, popped, applied, 
-                               workerDone, closerDone, faults, toggles, reads, 
-                               n, me, batch, bi, failAt >>
+                               acks, err, pushed, popped, applied, workerDone, 
+                               closerDone, faults, toggles, reads, me, batch, 
+                               bi, failAt >>
 
 w_thr2(self) == /\ pc[self] = "w_thr2"
                 /\ IF dbClosed \/ closed
                       THEN /\ result' = [result EXCEPT ![me[self]] = "blocked"]
-                           /\ pc' = [pc EXCEPT ![self] = "w_next"]
+                           /\ n' = [n EXCEPT ![self] = n[self] + 1]
+                           /\ pc' = [pc EXCEPT ![self] = "w_call"]
                       ELSE /\ pc' = [pc EXCEPT ![self] = "w_thr"]
-                           /\ UNCHANGED result
+                           /\ UNCHANGED << result, n >>
                 /\ UNCHANGED << ring, spaces, items, queueLen, inflight, 
                                 closed, ringClosed, closeCh, dbClosed, 
                                 blockWrites, acks, err, pushed, popped, 
                                 applied, workerDone, closerDone, faults, 
-                                toggles, reads, n, me, batch, bi, failAt >>
-
-w_size(self) == /\ pc[self] = "w_size"
-                /\ \/ /\ result' = [result EXCEPT ![me[self]] = "toobig"]
-                      /\ pc' = [pc EXCEPT ![self] = "w_next"]
-                   \/ /\ TRUE
-                      /\ pc' = [pc EXCEPT ![self] = "e_inf"]
-                      /\ UNCHANGED result
-                /\ UNCHANGED << ring, spaces, items, queueLen, inflight, 
-                                closed, ringClosed, closeCh, dbClosed, 
-                                blockWrites, acks, err, pushed, popped, 
-                                applied, workerDone, closerDone, faults, 
-                                toggles, reads, n, me, batch, bi, failAt >>
+                                toggles, reads, me, batch, bi, failAt >>
 
 e_inf(self) == /\ pc[self] = "e_inf"
-               /\ inflight' = inflight + 1
-               /\ pc' = [pc EXCEPT ![self] = "e_chk1"]
+               /\ \/ /\ result' = [result EXCEPT ![me[self]] = "toobig"]
+                     /\ n' = [n EXCEPT ![self] = n[self] + 1]
+                     /\ pc' = [pc EXCEPT ![self] = "w_call"]
+                     /\ UNCHANGED inflight
+                  \/ /\ inflight' = inflight + 1
+                     /\ pc' = [pc EXCEPT ![self] = "e_chk1"]
+                     /\ UNCHANGED <<result, n>>
                /\ UNCHANGED << ring, spaces, items, queueLen, closed, 
                                ringClosed, closeCh, dbClosed, blockWrites, 
-                               acks, err, result, pushed, popped, applied, 
-                               workerDone, closerDone, faults, toggles, reads, 
-                               n, me, batch, bi, failAt >>
+                               acks, err, pushed, popped, applied, workerDone, 
+                               closerDone, faults, toggles, reads, me, batch, 
+                               bi, failAt >>
 
 e_chk1(self) == /\ pc[self] = "e_chk1"
                 /\ IF closed
                       THEN /\ inflight' = inflight - 1
                            /\ result' = [result EXCEPT ![me[self]] = "blocked"]
-                           /\ pc' = [pc EXCEPT ![self] = "w_next"]
+                           /\ n' = [n EXCEPT ![self] = n[self] + 1]
+                           /\ pc' = [pc EXCEPT ![self] = "w_call"]
                       ELSE /\ pc' = [pc EXCEPT ![self] = "e_acq"]
-                           /\ UNCHANGED << inflight, result >>
+                           /\ UNCHANGED << inflight, result, n >>
                 /\ UNCHANGED << ring, spaces, items, queueLen, closed, 
                                 ringClosed, closeCh, dbClosed, blockWrites, 
                                 acks, err, pushed, popped, applied, workerDone, 
-                                closerDone, faults, toggles, reads, n, me, 
-                                batch, bi, failAt >>
+                                closerDone, faults, toggles, reads, me, batch, 
+                                bi, failAt >>
 
 e_acq(self) == /\ pc[self] = "e_acq"
                /\ \/ /\ spaces > 0
                      /\ spaces' = spaces - 1
                      /\ pc' = [pc EXCEPT ![self] = "e_chk2"]
-                     /\ UNCHANGED <<inflight, result>>
+                     /\ UNCHANGED <<inflight, result, n>>
                   \/ /\ closeCh
                      /\ inflight' = inflight - 1
                      /\ result' = [result EXCEPT ![me[self]] = "blocked"]
-                     /\ pc' = [pc EXCEPT ![self] = "w_next"]
+                     /\ n' = [n EXCEPT ![self] = n[self] + 1]
+                     /\ pc' = [pc EXCEPT ![self] = "w_call"]
                      /\ UNCHANGED spaces
                /\ UNCHANGED << ring, items, queueLen, closed, ringClosed, 
                                closeCh, dbClosed, blockWrites, acks, err, 
                                pushed, popped, applied, workerDone, closerDone, 
-                               faults, toggles, reads, n, me, batch, bi, 
-                               failAt >>
+                               faults, toggles, reads, me, batch, bi, failAt >>
 
 e_chk2(self) == /\ pc[self] = "e_chk2"
                 /\ IF closed
                       THEN /\ spaces' = spaces + 1
                            /\ inflight' = inflight - 1
                            /\ result' = [result EXCEPT ![me[self]] = "blocked"]
-                           /\ pc' = [pc EXCEPT ![self] = "w_next"]
+                           /\ n' = [n EXCEPT ![self] = n[self] + 1]
+                           /\ pc' = [pc EXCEPT ![self] = "w_call"]
                       ELSE /\ pc' = [pc EXCEPT ![self] = "e_push1"]
-                           /\ UNCHANGED << spaces, inflight, result >>
+                           /\ UNCHANGED << spaces, inflight, result, n >>
                 /\ UNCHANGED << ring, items, queueLen, closed, ringClosed, 
                                 closeCh, dbClosed, blockWrites, acks, err, 
                                 pushed, popped, applied, workerDone, 
-                                closerDone, faults, toggles, reads, n, me, 
-                                batch, bi, failAt >>
+                                closerDone, faults, toggles, reads, me, batch, 
+                                bi, failAt >>
 
 e_push1(self) == /\ pc[self] = "e_push1"
                  /\ IF ringClosed
                        THEN /\ spaces' = spaces + 1
                             /\ inflight' = inflight - 1
                             /\ result' = [result EXCEPT ![me[self]] = "blocked"]
-                            /\ pc' = [pc EXCEPT ![self] = "w_next"]
+                            /\ n' = [n EXCEPT ![self] = n[self] + 1]
+                            /\ pc' = [pc EXCEPT ![self] = "w_call"]
                        ELSE /\ pc' = [pc EXCEPT ![self] = "e_push2"]
-                            /\ UNCHANGED << spaces, inflight, result >>
+                            /\ UNCHANGED << spaces, inflight, result, n >>
                  /\ UNCHANGED << ring, items, queueLen, closed, ringClosed, 
                                  closeCh, dbClosed, blockWrites, acks, err, 
                                  pushed, popped, applied, workerDone, 
-                                 closerDone, faults, toggles, reads, n, me, 
-                                 batch, bi, failAt >>
+                                 closerDone, faults, toggles, reads, me, batch, 
+                                 bi, failAt >>
 
 e_push2(self) == /\ pc[self] = "e_push2"
                  /\ ring' = Append(ring, [r |-> me[self], pub |-> FALSE])
@@ -372,7 +365,7 @@ e_push2(self) == /\ pc[self] = "e_push2"
                                  reads, n, me, batch, bi, failAt >>
 
 e_push3(self) == /\ pc[self] = "e_push3"
-                 /\ ring' = [i \in DOMAIN ring |-> IF ring[i].r = me[self] THEN [ring[i] EXCEPT !.pub = TRUE] ELSE ring[i]]
+                 /\ ring' = [j \in DOMAIN ring |-> IF ring[j].r = me[self] THEN [ring[j] EXCEPT !.pub = TRUE] ELSE ring[j]]
                  /\ pc' = [pc EXCEPT ![self] = "e_qlen"]
                  /\ UNCHANGED << spaces, items, queueLen, inflight, closed, 
                                  ringClosed, closeCh, dbClosed, blockWrites, 
@@ -410,32 +403,24 @@ e_ret(self) == /\ pc[self] = "e_ret"
 w_wait(self) == /\ pc[self] = "w_wait"
                 /\ acks[me[self]] > 0
                 /\ result' = [result EXCEPT ![me[self]] = IF err[me[self]] = "none" THEN "ok" ELSE err[me[self]]]
-                /\ pc' = [pc EXCEPT ![self] = "w_next"]
-                /\ UNCHANGED << ring, spaces, items, queueLen, inflight, 
-                                closed, ringClosed, closeCh, dbClosed, 
-                                blockWrites, acks, err, pushed, popped, 
-                                applied, workerDone, closerDone, faults, 
-                                toggles, reads, n, me, batch, bi, failAt >>
-
-w_next(self) == /\ pc[self] = "w_next"
                 /\ n' = [n EXCEPT ![self] = n[self] + 1]
                 /\ pc' = [pc EXCEPT ![self] = "w_call"]
                 /\ UNCHANGED << ring, spaces, items, queueLen, inflight, 
                                 closed, ringClosed, closeCh, dbClosed, 
-                                blockWrites, acks, err, result, pushed, popped, 
+                                blockWrites, acks, err, pushed, popped, 
                                 applied, workerDone, closerDone, faults, 
                                 toggles, reads, me, batch, bi, failAt >>
 
-w(self) == w_call(self) \/ w_thr(self) \/ w_thr2(self) \/ w_size(self)
-              \/ e_inf(self) \/ e_chk1(self) \/ e_acq(self) \/ e_chk2(self)
+w(self) == w_call(self) \/ w_thr(self) \/ w_thr2(self) \/ e_inf(self)
+              \/ e_chk1(self) \/ e_acq(self) \/ e_chk2(self)
               \/ e_push1(self) \/ e_push2(self) \/ e_push3(self)
               \/ e_qlen(self) \/ e_item(self) \/ e_ret(self)
-              \/ w_wait(self) \/ w_next(self)
+              \/ w_wait(self)
 
 k_try == /\ pc["worker"] = "k_try"
          /\ IF items > 0
                THEN /\ items' = items - 1
-                    /\ pc' = [pc EXCEPT !["worker"] = "k_pop1"]
+                    /\ pc' = [pc EXCEPT !["worker"] = "k_pop"]
                ELSE /\ pc' = [pc EXCEPT !["worker"] = "k_closed"]
                     /\ items' = items
          /\ UNCHANGED << ring, spaces, queueLen, inflight, closed, ringClosed, 
@@ -498,7 +483,7 @@ k_di2 == /\ pc["worker"] = "k_di2"
 k_sel == /\ pc["worker"] = "k_sel"
          /\ \/ /\ items > 0
                /\ items' = items - 1
-               /\ pc' = [pc EXCEPT !["worker"] = "k_pop1"]
+               /\ pc' = [pc EXCEPT !["worker"] = "k_pop"]
             \/ /\ closeCh
                /\ pc' = [pc EXCEPT !["worker"] = "k_try"]
                /\ items' = items
@@ -507,100 +492,61 @@ k_sel == /\ pc["worker"] = "k_sel"
                          pushed, popped, applied, workerDone, closerDone, 
                          faults, toggles, reads, n, me, batch, bi, failAt >>
 
-k_pop1 == /\ pc["worker"] = "k_pop1"
-          /\ Len(ring) > 0 /\ ring[1].pub
-          /\ batch' = Append(batch, ring[1].r)
-          /\ popped' = Append(popped, ring[1].r)
-          /\ ring' = Tail(ring)
-          /\ pc' = [pc EXCEPT !["worker"] = "k_pop2"]
-          /\ UNCHANGED << spaces, items, queueLen, inflight, closed, 
-                          ringClosed, closeCh, dbClosed, blockWrites, acks, 
-                          err, result, pushed, applied, workerDone, closerDone, 
-                          faults, toggles, reads, n, me, bi, failAt >>
-
-k_pop2 == /\ pc["worker"] = "k_pop2"
-          /\ queueLen' = queueLen - 1
-          /\ pc' = [pc EXCEPT !["worker"] = "k_pop3"]
-          /\ UNCHANGED << ring, spaces, items, inflight, closed, ringClosed, 
-                          closeCh, dbClosed, blockWrites, acks, err, result, 
-                          pushed, popped, applied, workerDone, closerDone, 
-                          faults, toggles, reads, n, me, batch, bi, failAt >>
-
-k_pop3 == /\ pc["worker"] = "k_pop3"
-          /\ spaces' = spaces + 1
-          /\ pc' = [pc EXCEPT !["worker"] = "k_more"]
-          /\ UNCHANGED << ring, items, queueLen, inflight, closed, ringClosed, 
-                          closeCh, dbClosed, blockWrites, acks, err, result, 
-                          pushed, popped, applied, workerDone, closerDone, 
-                          faults, toggles, reads, n, me, batch, bi, failAt >>
+k_pop == /\ pc["worker"] = "k_pop"
+         /\ Len(ring) > 0 /\ ring[1].pub
+         /\ batch' = Append(batch, ring[1].r)
+         /\ popped' = Append(popped, ring[1].r)
+         /\ ring' = Tail(ring)
+         /\ queueLen' = queueLen - 1
+         /\ spaces' = spaces + 1
+         /\ pc' = [pc EXCEPT !["worker"] = "k_more"]
+         /\ UNCHANGED << items, inflight, closed, ringClosed, closeCh, 
+                         dbClosed, blockWrites, acks, err, result, pushed, 
+                         applied, workerDone, closerDone, faults, toggles, 
+                         reads, n, me, bi, failAt >>
 
 k_more == /\ pc["worker"] = "k_more"
           /\ IF Len(batch) < MaxBatch /\ items > 0
                 THEN /\ items' = items - 1
-                     /\ pc' = [pc EXCEPT !["worker"] = "k_pop1"]
-                ELSE /\ pc' = [pc EXCEPT !["worker"] = "k_vlog"]
+                     /\ pc' = [pc EXCEPT !["worker"] = "k_pop"]
+                ELSE /\ pc' = [pc EXCEPT !["worker"] = "k_proc"]
                      /\ items' = items
           /\ UNCHANGED << ring, spaces, queueLen, inflight, closed, ringClosed, 
                           closeCh, dbClosed, blockWrites, acks, err, result, 
                           pushed, popped, applied, workerDone, closerDone, 
                           faults, toggles, reads, n, me, batch, bi, failAt >>
 
-k_vlog == /\ pc["worker"] = "k_vlog"
-          /\ \/ /\ faults < MaxFaults
-                /\ faults' = faults + 1
-                /\ failAt' = 0
-                /\ pc' = [pc EXCEPT !["worker"] = "k_ack"]
-                /\ bi' = bi
-             \/ /\ bi' = 1
-                /\ failAt' = -1
-                /\ pc' = [pc EXCEPT !["worker"] = "k_app"]
+k_proc == /\ pc["worker"] = "k_proc"
+          /\ \/ /\ failAt' = -1
                 /\ UNCHANGED faults
+             \/ /\ faults < MaxFaults
+                /\ faults' = faults + 1
+                /\ \E f \in 0..Len(batch):
+                     failAt' = f
+          /\ applied' = applied \o (IF failAt' = -1 THEN batch ELSE SubSeq(batch, 1, failAt' - 1))
+          /\ bi' = 1
+          /\ pc' = [pc EXCEPT !["worker"] = "k_ack"]
           /\ UNCHANGED << ring, spaces, items, queueLen, inflight, closed, 
                           ringClosed, closeCh, dbClosed, blockWrites, acks, 
-                          err, result, pushed, popped, applied, workerDone, 
-                          closerDone, toggles, reads, n, me, batch >>
-
-k_app == /\ pc["worker"] = "k_app"
-         /\ IF bi <= Len(batch)
-               THEN /\ \/ /\ applied' = Append(applied, batch[bi])
-                          /\ bi' = bi + 1
-                          /\ pc' = [pc EXCEPT !["worker"] = "k_app"]
-                          /\ UNCHANGED <<faults, failAt>>
-                       \/ /\ faults < MaxFaults
-                          /\ faults' = faults + 1
-                          /\ failAt' = bi
-                          /\ pc' = [pc EXCEPT !["worker"] = "k_ack"]
-                          /\ UNCHANGED <<applied, bi>>
-               ELSE /\ pc' = [pc EXCEPT !["worker"] = "k_ack"]
-                    /\ UNCHANGED << applied, faults, bi, failAt >>
-         /\ UNCHANGED << ring, spaces, items, queueLen, inflight, closed, 
-                         ringClosed, closeCh, dbClosed, blockWrites, acks, err, 
-                         result, pushed, popped, workerDone, closerDone, 
-                         toggles, reads, n, me, batch >>
+                          err, result, pushed, popped, workerDone, closerDone, 
+                          toggles, reads, n, me, batch >>
 
 k_ack == /\ pc["worker"] = "k_ack"
-         /\ bi' = 1
-         /\ pc' = [pc EXCEPT !["worker"] = "k_ack1"]
+         /\ IF bi <= Len(batch)
+               THEN /\ err' = [err EXCEPT ![batch[bi]] = IF failAt = 0 \/ (failAt > 0 /\ bi >= failAt) THEN "ioerr" ELSE "none"]
+                    /\ acks' = [acks EXCEPT ![batch[bi]] = acks[batch[bi]] + 1]
+                    /\ bi' = bi + 1
+                    /\ pc' = [pc EXCEPT !["worker"] = "k_ack"]
+                    /\ UNCHANGED << batch, failAt >>
+               ELSE /\ batch' = <<>>
+                    /\ bi' = 1
+                    /\ failAt' = -1
+                    /\ pc' = [pc EXCEPT !["worker"] = "k_try"]
+                    /\ UNCHANGED << acks, err >>
          /\ UNCHANGED << ring, spaces, items, queueLen, inflight, closed, 
-                         ringClosed, closeCh, dbClosed, blockWrites, acks, err, 
-                         result, pushed, popped, applied, workerDone, 
-                         closerDone, faults, toggles, reads, n, me, batch, 
-                         failAt >>
-
-k_ack1 == /\ pc["worker"] = "k_ack1"
-          /\ IF bi <= Len(batch)
-                THEN /\ err' = [err EXCEPT ![batch[bi]] = IF failAt = 0 \/ (failAt > 0 /\ bi >= failAt) THEN "ioerr" ELSE "none"]
-                     /\ acks' = [acks EXCEPT ![batch[bi]] = acks[batch[bi]] + 1]
-                     /\ bi' = bi + 1
-                     /\ pc' = [pc EXCEPT !["worker"] = "k_ack1"]
-                     /\ batch' = batch
-                ELSE /\ batch' = <<>>
-                     /\ pc' = [pc EXCEPT !["worker"] = "k_try"]
-                     /\ UNCHANGED << acks, err, bi >>
-          /\ UNCHANGED << ring, spaces, items, queueLen, inflight, closed, 
-                          ringClosed, closeCh, dbClosed, blockWrites, result, 
-                          pushed, popped, applied, workerDone, closerDone, 
-                          faults, toggles, reads, n, me, failAt >>
+                         ringClosed, closeCh, dbClosed, blockWrites, result, 
+                         pushed, popped, applied, workerDone, closerDone, 
+                         faults, toggles, reads, n, me >>
 
 k_exit == /\ pc["worker"] = "k_exit"
           /\ workerDone' = TRUE
@@ -611,8 +557,7 @@ k_exit == /\ pc["worker"] = "k_exit"
                           faults, toggles, reads, n, me, batch, bi, failAt >>
 
 worker == k_try \/ k_closed \/ k_dq1 \/ k_dq2 \/ k_di1 \/ k_di2 \/ k_sel
-             \/ k_pop1 \/ k_pop2 \/ k_pop3 \/ k_more \/ k_vlog \/ k_app
-             \/ k_ack \/ k_ack1 \/ k_exit
+             \/ k_pop \/ k_more \/ k_proc \/ k_ack \/ k_exit
 
 c_cas == /\ pc["closer"] = "c_cas"
          /\ DoClose
@@ -641,14 +586,6 @@ c_ch == /\ pc["closer"] = "c_ch"
 
 c_wait == /\ pc["closer"] = "c_wait"
           /\ workerDone
-          /\ pc' = [pc EXCEPT !["closer"] = "c_rest"]
-          /\ UNCHANGED << ring, spaces, items, queueLen, inflight, closed, 
-                          ringClosed, closeCh, dbClosed, blockWrites, acks, 
-                          err, result, pushed, popped, applied, workerDone, 
-                          closerDone, faults, toggles, reads, n, me, batch, bi, 
-                          failAt >>
-
-c_rest == /\ pc["closer"] = "c_rest"
           /\ dbClosed' = TRUE
           /\ closerDone' = TRUE
           /\ pc' = [pc EXCEPT !["closer"] = "Done"]
@@ -657,13 +594,15 @@ c_rest == /\ pc["closer"] = "c_rest"
                           pushed, popped, applied, workerDone, faults, toggles, 
                           reads, n, me, batch, bi, failAt >>
 
-closer == c_cas \/ c_ring \/ c_ch \/ c_wait \/ c_rest
+closer == c_cas \/ c_ring \/ c_ch \/ c_wait
 
 t_loop == /\ pc["toggler"] = "t_loop"
           /\ IF toggles < MaxToggles
-                THEN /\ blockWrites' = ~blockWrites
-                     /\ toggles' = toggles + 1
-                     /\ pc' = [pc EXCEPT !["toggler"] = "t_loop"]
+                THEN /\ \/ /\ blockWrites' = ~blockWrites
+                           /\ toggles' = toggles + 1
+                           /\ pc' = [pc EXCEPT !["toggler"] = "t_loop"]
+                        \/ /\ pc' = [pc EXCEPT !["toggler"] = "t_final"]
+                           /\ UNCHANGED <<blockWrites, toggles>>
                 ELSE /\ pc' = [pc EXCEPT !["toggler"] = "t_final"]
                      /\ UNCHANGED << blockWrites, toggles >>
           /\ UNCHANGED << ring, spaces, items, queueLen, inflight, closed, 
@@ -726,7 +665,7 @@ TypeOK == /\ spaces \in 0..Cap /\ items \in 0..Cap /\ queueLen \in 0..Cap
 
 \* semaphores and counters agree with the ring
 Tokens == /\ items <= queueLen
-          /\ queueLen <= PubCount + (IF pc["worker"] = "k_pop2" THEN 1 ELSE 0)   \* pop decrements after Ring.Pop
+          /\ queueLen <= PubCount
           /\ spaces + Len(ring) <= Cap
 
 \* FIFO through ring and batch coalescing: requests leave in reservation order and are applied
